@@ -731,8 +731,8 @@ def entry_case(ctx, meta):
     spec, seed = meta["spec"], meta["seed"]
     d = build_named(spec)
     RS = lambda: np.random.RandomState(seed)
-    raw1 = np.asarray(quiet(d._sample, 1, rng=RS()), dtype=float)
-    raw3 = np.asarray(quiet(d._sample, 3, rng=RS()), dtype=float)
+    raw1 = np.asarray(quiet(d._sample, 1, rng=RS()))
+    raw3 = np.asarray(quiet(d._sample, 3, rng=RS()))
     ones = {"sample(rng=g)": quiet(d.sample, rng=RS()), "sample(1, g)": quiet(d.sample, 1, RS()),
             "sample(N=1, rng=g)": quiet(d.sample, N=1, rng=RS()), "sample(np.int64(1), rng=g)": quiet(d.sample, np.int64(1), rng=RS()),
             "sample(np.int32(1), g)": quiet(d.sample, np.int32(1), RS())}
@@ -745,6 +745,14 @@ def entry_case(ctx, meta):
     for nm, w in threes.items():
         exprs.append("check_wrap false 3%%nat %s %s" % (enc_raw(raw3), enc_wrapped(w)))
         fail = fail or (("%s: " % nm) + shape_verdict(d, w, 3) if shape_verdict(d, w, 3) else None)
+    if not fail:
+        # the wrapper must hand on the numbers _sample produced, bit for bit (same generator state)
+        for nm, w in ones.items():
+            if not np.array_equal(np.ravel(np.asarray(w)).astype(float), np.ravel(raw1)) or np.asarray(w).dtype != raw1.dtype:
+                fail = "%s does not hold the numbers (dtype %s) that _sample produced under the same generator state (dtype %s)" % (nm, np.asarray(w).dtype, raw1.dtype)
+        for nm, w in threes.items():
+            if not np.array_equal(np.asarray(w.samples), raw3) or np.asarray(w.samples).dtype != raw3.dtype:
+                fail = "%s does not hold the numbers that _sample produced under the same generator state" % nm
     if not fail:
         a0 = np.asarray(list(ones.values())[0], dtype=float)
         for nm, w in ones.items():
@@ -1627,7 +1635,11 @@ def mhn_cases(ctx, cases):
     plist = MHN_PARAMS if ctx.thorough else MHN_PARAMS[:16]
     for (a, b, g) in plist:
         q = mhn_quantities(a, b, g)
-        oracle = mhn_acceptance_oracle(dobj, a, b, g, q)
+        try:
+            oracle = mhn_acceptance_oracle(dobj, a, b, g, q)
+        except Exception as e:
+            oracle = ("_MHN_sample(%s, %s, %s): the rejection loop does not return for scripted proposals at the scheme's centre with "
+                      "U = 1e-300 (%s: %s)" % (a, b, g, type(e).__name__, e), "ModifiedHalfNormal._MHN_sample|never-accepts")
         for rep in range(ctx.n(2, 6)):
             for attempt in range(50):
                 if q["scheme"] == "norm":
@@ -1765,8 +1777,13 @@ def mhn_acceptance_oracle(dobj, a, b, g, q):
         prop = st.gamma(a=first[1], scale=first[2])
         grid = [prop.ppf(t) for t in (0.02, 0.1, 0.25, 0.4, 0.5, 0.6, 0.75, 0.9, 0.98)]
         if g <= 0:
-            tox = lambda t: q["m"] * t ** q["v1"]
-            jac = lambda t: math.log(q["m"] * q["v1"]) + (q["v1"] - 1) * math.log(t)
+            # the map T -> X = m T^v1 is read off the implementation (two forced accepts), not assumed
+            x1 = mhn_run(dobj, a, b, g, 1.0, 1e-300, q)[2]
+            x4 = mhn_run(dobj, a, b, g, 4.0, 1e-300, q)[2]
+            v1e = math.log(x4 / x1) / math.log(4.0)
+            me = x1
+            tox = lambda t: me * t ** v1e
+            jac = lambda t: math.log(me * v1e) + (v1e - 1) * math.log(t)
         else:
             tox = lambda t: math.sqrt(t)
             jac = lambda t: -math.log(2 * math.sqrt(t))
